@@ -415,8 +415,14 @@ class BatteryDistributionAlgorithm:
         for pair in components:
             battery, inverters = pair
             capacity_ratio = battery.capacity / total_capacity
-            soc_factor: float = pow(
-                available_soc[battery.component_id], self._distributor_exponent
+            # A battery without available SoC can't be used, for any exponent
+            # (`pow(0.0, 0.0)` is 1.0).
+            soc_factor: float = (
+                0.0
+                if is_close_to_zero(available_soc[battery.component_id])
+                else pow(
+                    available_soc[battery.component_id], self._distributor_exponent
+                )
             )
 
             ratio = capacity_ratio * soc_factor
@@ -503,7 +509,7 @@ class BatteryDistributionAlgorithm:
             inverter_set = _InverterSet(ratio_data.inverter_ids)
             # ratio = 0, means all remaining batteries reach max SoC lvl or have no
             # capacity
-            if is_close_to_zero(ratio):
+            if is_close_to_zero(ratio) or is_close_to_zero(ratio_data.ratio):
                 distribution[inverter_set] = _Power(
                     upper_bound=0.0,
                     power=0.0,
